@@ -123,7 +123,6 @@ func LoadProgram(dir string, overlay map[string][]byte, env []string, tags strin
 var typeAlias = map[string]string{}
 var typeActual = map[string]string{}
 
-
 func cleanEnv() []string {
 	var out []string
 	for _, kv := range os.Environ() {
